@@ -170,8 +170,21 @@ def run_check(prop, modname, tier="quick", seed=0, procs=None, level="proof", as
             os.remove(os.path.join(ROOT, "replays", f))
     if procs > 1 and len(args) > 1:
         ctxm = mp.get_context("fork")
+        # a wall-clock budget for the whole check (a change to the code under contract can make one exploration run away, e.g. a
+        # membership test that iterates over range(2**64)): jobs that have not finished by then are reported UNDECIDED, never silently
+        budget = float(os.environ.get("PYVC_WALL_BUDGET", 1500 if tier == "quick" else 4 * 3600))
+        t_start = time.time()
         with ctxm.Pool(procs) as pool:
-            outs = pool.map(_run_job, args, chunksize=1)
+            pending = [pool.apply_async(_run_job, (a,)) for a in args]
+            outs = []
+            for a, r in zip(args, pending):
+                try:
+                    outs.append(r.get(timeout=max(0.05, budget - (time.time() - t_start))))
+                except mp.TimeoutError:
+                    outs.append({"id": a[1], "kind": "?", "func": None, "meta": None, "obligations": {}, "paths": 0, "completed": 0,
+                                 "unsupported": ["not finished within the wall-clock budget of the check (%d s)" % budget], "errors": [],
+                                 "solver_ms": 0, "checks": 0, "truncated": False, "covers": [], "wall_s": budget})
+            pool.terminate()
     else:
         outs = [_run_job(a) for a in args]
 
